@@ -204,6 +204,22 @@ static int verify_file_constraints(KSI_CTX *ctx, const unsigned char *p, size_t 
 		v2 = KSI_verifyPublicationsFile(ctx, pf);
 		vf_count("impl_calls", 4);
 		if ((v == KSI_OK) != (v2 == KSI_OK)) vf_fail("verify-disagree", "file-level constraints: KSI_PublicationsFile_verify=0x%x but KSI_verifyPublicationsFile=0x%x", v, v2);
+		if (kind != 0) {
+			/* an update that is refused (an entry without a value) leaves the constraints as they were */
+			KSI_CertConstraint bad[3];
+			int r, v3;
+			memset(bad, 0, sizeof bad);
+			bad[0].oid = KSI_CERT_EMAIL; bad[0].val = EMAIL; bad[1].oid = KSI_CERT_COMMON_NAME; bad[1].val = NULL;
+			bad[1].oid = KSI_CERT_COMMON_NAME;
+			r = KSI_PublicationsFile_setCertConstraints(pf, bad);
+			v3 = KSI_PublicationsFile_verify(pf, ctx);
+			vf_count("impl_calls", 2);
+			if (r == KSI_OK) vf_outcome("constraints:entry-without-value:accepted");
+			else {
+				vf_outcome("constraints:entry-without-value:refused");
+				if ((v3 == KSI_OK) != (v == KSI_OK)) vf_fail("refused-update-changed-constraints", "the refused KSI_PublicationsFile_setCertConstraints call (0x%x) changed the outcome of verification from 0x%x to 0x%x", r, v, v3);
+			}
+		}
 	}
 	KSI_PublicationsFile_free(pf);
 	free(ex);
